@@ -11,7 +11,7 @@ var allRF = []int{1, 2, 3, 3, 4, 5}
 // ---- C02 -------------------------------------------------------------------
 
 var c02Cfg = SGenCfg{RFs: allRF, MinOps: 4, MaxOps: 24, FaultPct: 55, SlowFaults: true, MaxSlow: 2,
-	W: map[string]int{"write": 46, "sync": 8, "unmap": 8, "read": 8, "readd": 10, "promote": 4, "remove": 2}}
+	W: map[string]int{"write": 44, "sync": 8, "unmap": 8, "read": 8, "readd": 10, "promote": 4, "remove": 2, "iorace": 3}}
 
 func TestC02(t *testing.T) {
 	runStackProperty(t, "C02", "TestC02", func(rt *rapid.T) SProgram { return GenSProgram(rt, c02Cfg) },
@@ -24,7 +24,7 @@ func TestC02(t *testing.T) {
 
 var c03Cfg = SGenCfg{PingsPct: 25, RFs: allRF, MinOps: 5, MaxOps: 28, FaultPct: 35, SlowFaults: false, RestFail: true,
 	W: map[string]int{"write": 24, "sync": 6, "unmap": 4, "read": 4, "readd": 14, "add": 4, "promote": 8, "remove": 10,
-		"pingfail": 4, "nodedrop": 3, "snapshot": 8, "boot": 2, "reconnect": 3, "setmode": 4, "setmodeseq": 2, "ctlrevert": 4}}
+		"pingfail": 4, "nodedrop": 3, "snapshot": 8, "boot": 2, "reconnect": 3, "setmode": 4, "setmodeseq": 2, "ctlrevert": 4, "iorace": 6}}
 
 func TestC03(t *testing.T) {
 	runStackProperty(t, "C03", "TestC03", func(rt *rapid.T) SProgram { return GenSProgram(rt, c03Cfg) },
@@ -46,7 +46,7 @@ func TestC04(t *testing.T) {
 // ---- C05 -------------------------------------------------------------------
 
 var c05Cfg = SGenCfg{PingsPct: 60, RFs: []int{3, 3, 5, 5, 4}, MinOps: 5, MaxOps: 22, FaultPct: 40, SlowFaults: true, MaxSlow: 2,
-	W: map[string]int{"write": 30, "sync": 6, "unmap": 8, "read": 16, "readd": 10, "promote": 3, "remove": 4, "pingfail": 8, "nodedrop": 8, "errio": 6}}
+	W: map[string]int{"write": 30, "sync": 6, "unmap": 8, "read": 16, "readd": 10, "promote": 3, "remove": 4, "pingfail": 8, "nodedrop": 8, "errio": 6, "iorace": 3}}
 
 func TestC05(t *testing.T) {
 	runStackProperty(t, "C05", "TestC05", func(rt *rapid.T) SProgram { return GenSProgram(rt, c05Cfg) },
